@@ -122,8 +122,11 @@ def check_tx(tx, rq, rs, cfg, errs, check_params=True):
         if gq != list(rq['query_pairs']):
             errs.append(('query_params', 'got %r expected %r' % (gq, rq['query_pairs'])))
         exp_b = list(rq['body_pairs']) if rq['ctype'] == 'application/x-www-form-urlencoded' else []
-        if gb != exp_b:
+        if gb != exp_b and rq.get('multipart') is None:
             errs.append(('body_params', 'got %r expected %r' % (gb, exp_b)))
+    if rq.get('multipart') is not None and cfg.get('MULTIPART_PARSER'):
+        from . import mpart
+        mpart.check_multipart(tx.get('multipart'), rq['multipart'], tx['params'], errs, put_method=(rq['method'] == 'PUT'))  # a PUT body is itself reported as a file
     # request body
     if tx['req_body']['n'] != len(rq['body']) or ('d' in tx['req_body'] and b(tx['req_body']['d']) != rq['body']):
         errs.append(('req_body', 'got %d bytes %r expected %d bytes %r' % (tx['req_body']['n'], tx['req_body'].get('d', '')[:60], len(rq['body']), rq['body'][:60])))
